@@ -108,12 +108,12 @@ class GeoNetwork(SpatialNetwork):
         self.node_weight_type = node_weight_type
 
         if node_weight_type == "surface":
-            self._node_weights = self.grid.cos_lat()
+            self.node_weights = self.grid.cos_lat()
         elif node_weight_type == "irrigation":
-            self._node_weights = np.square(self.grid.cos_lat())
+            self.node_weights = np.square(self.grid.cos_lat())
         #  If None or invalid choice:
         else:
-            self._node_weights = None
+            self.node_weights = None
 
     #
     #  Load and save GeoNetwork object
